@@ -7,7 +7,7 @@ from typing import TYPE_CHECKING, Tuple, cast, overload
 
 import numpy as np
 
-from physt._construction import calculate_nd_frequencies
+from physt._construction import calculate_nd_frequencies, extract_weights
 from physt.histogram_base import HistogramBase
 
 if TYPE_CHECKING:
@@ -392,10 +392,12 @@ class HistogramND(HistogramBase):
             raise ValueError(
                 f"Expecting array with {self.ndim} columns, {values_array.shape[1]} found."
             )
+        array_mask = None
         if dropna:
-            values_array = values_array[~np.isnan(values_array).any(axis=1)]
+            array_mask = ~np.isnan(values_array).any(axis=1)
+            values_array = values_array[array_mask]
         if weights is not None:
-            weights = np.asarray(weights)
+            weights = extract_weights(weights, array_mask=array_mask)
             # TODO: Check for weights size?
             self._coerce_dtype(weights.dtype)
         for i, binning in enumerate(self._binnings):
